@@ -23,7 +23,12 @@
 //!     verify (commitment: sighash of the canonical transaction under the holder's funding key;
 //!     HTLC signatures: LDK's second-level transactions under the holder's HTLC key);
 //!   * applies every mutation, submits transaction + witness scripts to the raw entry point from the
-//!     same state and records the verdict and against what the returned signature verifies.
+//!     same state and records the verdict and against what the returned signature verifies;
+//!   * when the base's HISTORY (CommitTx!Histories) has a restart, restores the signer from a copy of
+//!     its store (`NodeFx::restart_copy`: Node::restore_nodes over the persisted entries) - "restart":
+//!     after the channel was set up and brought to number n, before the first request for n;
+//!     "restart_retry": after the first semantic request for n - and makes every later request of the
+//!     base on the RESTORED signer.  The observations are the same, the same monitors judge them.
 //! One ndjson record per base ("k":"base") and per raw request ("k":"raw") with the CONCRETE values
 //! used, in the abstract shape of CommitTx.tla.  No property logic here: spec/ImplCommitTx.tla judges.
 use std::collections::HashMap;
@@ -687,6 +692,19 @@ impl World {
         node_restore(&mut st, &s.node);
     }
 
+    /// "crash + restart": from here on the requests go to a signer restored from a copy of the store.
+    /// Returns "ok" or why the restore failed (the old signer stays in that case; TLC's concretisation
+    /// check refuses such a log).
+    fn restart(&mut self) -> String {
+        match self.fx.restart_copy() {
+            Ok(fx2) => {
+                self.fx = fx2;
+                "ok".to_string()
+            }
+            Err(e) => format!("failed: {}", e.chars().take(160).collect::<String>()),
+        }
+    }
+
     /// outgoing HTLCs (received by the counterparty) are payments: approve them the way a node does
     fn approve(&self, c: &Value) {
         let mut per_hash: HashMap<u64, u64> = HashMap::new();
@@ -747,10 +765,10 @@ impl World {
 }
 
 /// a fresh real node + channel brought to the state in which commitment n can be signed
-fn prepare(b: &Value) -> Result<(World, Vec<String>, Snap), String> {
+fn prepare(b: &Value) -> Result<(World, Vec<String>, Snap, String), String> {
     let c = &b["C"];
     let n = c["n"].as_u64().unwrap();
-    let w = World::new(&b["S"], c)?;
+    let mut w = World::new(&b["S"], c)?;
     // commitments 0..n-1 signed with the `pre` content, 0..n-2 revoked
     let mut reach = vec![];
     for k in 0..n {
@@ -772,9 +790,21 @@ fn prepare(b: &Value) -> Result<(World, Vec<String>, Snap), String> {
             });
         }
     }
+    // history "restart": the signer is restored from its store before the first request for n
+    let restart = if b["hist"] == "restart" { w.restart() } else { "none".to_string() };
     w.approve(c);
     let fresh = w.snap();
-    Ok((w, reach, fresh))
+    Ok((w, reach, fresh, restart))
+}
+
+/// the state in which a base's retries / raw retries are made: the first semantic request for n was
+/// answered - and, history "restart_retry", the signer was restored from its store afterwards
+fn after_first(w: &mut World, b: &Value) -> Snap {
+    let _ = w.sem(&b["C"], &w.point);
+    if b["hist"] == "restart_retry" {
+        let _ = w.restart();
+    }
+    w.snap()
 }
 
 fn run_base(b: &Value) -> Vec<Value> {
@@ -782,7 +812,7 @@ fn run_base(b: &Value) -> Vec<Value> {
     let c = &b["C"];
     let n = c["n"].as_u64().unwrap();
     let mut rows = vec![];
-    let (mut w, reach, mut fresh) = match prepare(b) {
+    let (mut w, reach, mut fresh, mut restart) = match prepare(b) {
         Ok(x) => x,
         Err(e) => {
             // setup_channel refused this setup: nothing can be asked of this channel
@@ -889,6 +919,14 @@ fn run_base(b: &Value) -> Vec<Value> {
         Err(p) => (json!({"ok": false, "tag": "panic", "canon": false, "hs": [], "msg": p.chars().take(160).collect::<String>()}), None, vec![]),
     };
     let rec_first = w.recorded();
+    let hist = b["hist"].as_str().unwrap();
+    // history "restart_retry": the signer is restored from its store after the first request for n
+    if hist == "restart_retry" {
+        restart = w.restart();
+        if sem_sig.is_none() {
+            fresh = w.snap();
+        }
+    }
     // the same request again (a retry in the state the first one left)
     let mut after = w.snap();
     let sem2_json = if sem_sig.is_some() {
@@ -900,13 +938,12 @@ fn run_base(b: &Value) -> Vec<Value> {
     } else {
         json!({"ok": false, "tag": "none", "canon": false, "same": false})
     };
-    let hist = b["hist"].as_str().unwrap();
-    let retry = hist == "retry" && sem_sig.is_some();
+    let retry = (hist == "retry" || hist == "restart_retry") && sem_sig.is_some();
 
     let mut slog = sv.clone();
     slog["of"] = json!({"hc": [w.of_hc.0, w.of_hc.1], "ch": [w.of_ch.0, w.of_ch.1]});
     rows.push(json!({"k": "base", "b": b["b"], "name": b["name"], "S": slog, "C": c, "hist": hist, "setup_ok": true, "setup": "ok",
-                     "reach": reach, "reached": reached,
+                     "reach": reach, "reached": reached, "restart": restart, "amt": w.setup.channel_value_sat,
                      "canon": canon.json(), "ldk_built": ldk.is_ok(), "ldk_eq": ldk_eq, "htx": htx, "sem": sem_json, "sem2": sem2_json, "rec": rec_first}));
 
     // ---- RETRIES: a second request for the same number after the accepted first one, both entry points
@@ -952,11 +989,10 @@ fn run_base(b: &Value) -> Vec<Value> {
         let rec = if panicked { json!({"some": false, "fr": 0, "to_h": 0, "to_c": 0, "off": [], "rcv": []}) } else { w.recorded() };
         rows.push(json!({"k": "retry", "b": b["b"], "id": rt["id"], "kind": rt["kind"], "ep": ep, "C2": c2, "resp": resp, "rec": rec}));
         if panicked {
-            let (w2, _, fresh2) = prepare(b).expect("rebuild");
+            let (w2, _, fresh2, _) = prepare(b).expect("rebuild");
             w = w2;
             fresh = fresh2;
-            let _ = w.sem(c, &w.point);
-            after = w.snap();
+            after = after_first(&mut w, b);
         }
     }
 
@@ -988,12 +1024,11 @@ fn run_base(b: &Value) -> Vec<Value> {
                          "bytes_eq_canon": tx == canon_tx, "resp": resp}));
         if matches!(r, Err(_)) {
             // a panic may have poisoned a lock of this node: continue on a node rebuilt the same way
-            let (w2, _, fresh2) = prepare(b).expect("rebuild");
+            let (w2, _, fresh2, _) = prepare(b).expect("rebuild");
             w = w2;
             fresh = fresh2;
             if retry {
-                let _ = w.sem(c, &w.point);
-                after = w.snap();
+                after = after_first(&mut w, b);
             }
         }
     }
